@@ -26,7 +26,8 @@ RULE = ('The namespace object is registered with a recorder whose methods '
         'including falsy-but-meaningful ones (0, "", [], False, 0.0, None), '
         'objects registered for the catch-all namespace, and objects with a '
         'history (an event dispatched to them, an earlier helper call with an '
-        'explicit namespace) before the judged call. '
+        'explicit namespace, a registration refused by a server / client of '
+        'the other kind) before the judged call. '
         'Oracle: the same-named method is called exactly once; every '
         'argument the caller gave arrives unchanged at the parameter of the '
         'same name; an omitted namespace arrives as the registration '
@@ -121,7 +122,8 @@ def strategy(tier):
         # what happened to the namespace object before the judged call: an
         # event dispatched to it, or an earlier helper call with an explicit
         # namespace (nothing of it may stick)
-        'history': st.lists(st.sampled_from(['event', 'helper_ns']),
+        'history': st.lists(st.sampled_from(['event', 'helper_ns',
+                                             'bad_register']),
                             max_size=2),
         'ns_override': st.sampled_from(['/other', '/', '/reg', '/x y']),
         'values': st.lists(val, min_size=8, max_size=8)}).map(
@@ -207,6 +209,20 @@ def check_case(case):
             settle(ns.trigger_event('my_event', *a))
             if len(evlog) < 1:
                 raise Violation('history-event-not-dispatched', repr(a))
+        elif hst == 'bad_register':
+            # a server / client of the other kind refuses the object: it
+            # stays with the one it is registered with
+            other = {'Server': 'AsyncServer', 'AsyncServer': 'Server',
+                     'Client': 'AsyncClient', 'AsyncClient': 'Client'}[
+                         target_name]
+            kw_o = {'async_mode': 'threading'} if other == 'Server' else (
+                {'async_mode': 'asgi'} if other == 'AsyncServer' else {})
+            try:
+                getattr(socketio, other)(**kw_o).register_namespace(ns)
+            except ValueError:
+                pass
+            else:
+                raise Violation('wrong-kind-registration-accepted', other)
         elif 'namespace' in opt:
             settle(getattr(ns, helper)(*[reqvals[p] for p in req],
                                        namespace='/prev'))
